@@ -135,7 +135,7 @@ def explore(I, H, jobs=16, max_paths=2000000, time_budget=3600, keep_summaries=4
                     continue
             for res in done:
                 if res.get('unsupported'):
-                    ex.unsupported = res['unsupported'] + '\n' + res.get('trace', '')
+                    ex.unsupported = res['unsupported'][-700:]
                 for (end, fails, summary, ndec) in res['results']:
                     ex.paths += 1
                     ex.ends[end] += 1
